@@ -505,8 +505,9 @@ impl Vm {
             if let Some(arg) = arg {
                 self.push(arg);
             }
-        } else if let Some(arg) = arg {
-            self.poke(0, arg);
+        } else {
+            // The pending yield expression evaluates to the argument, or nil if there is none.
+            self.poke(0, arg.unwrap_or_default());
         }
 
         self.load_frame();
